@@ -4,6 +4,8 @@ import (
 	"io"
 	"os"
 	"path/filepath"
+	"slices"
+	"strings"
 	"sync"
 
 	"github.com/squadracorsepolito/acmelib/dbc"
@@ -225,7 +227,7 @@ func (e *exporter) exportAttribute(att Attribute, dbcAtt *dbc.Attribute) {
 		dbcAtt.MinFloat = floatAtt.min
 		dbcAtt.MaxFloat = floatAtt.max
 
-		dbcAttDef.Type = dbc.AttributeDefaultString
+		dbcAttDef.Type = dbc.AttributeDefaultFloat
 		dbcAttDef.ValueFloat = floatAtt.defValue
 
 	case AttributeTypeEnum:
@@ -260,7 +262,19 @@ func (e *exporter) exportBus(bus *Bus) *dbc.File {
 
 	e.exportNodeInterfaces(bus.NodeInterfaces())
 
+	// the order of the value tables must not depend on the map iteration order
+	sigEnums := make([]*SignalEnum, 0, len(e.sigEnums))
 	for _, sigEnum := range e.sigEnums {
+		sigEnums = append(sigEnums, sigEnum)
+	}
+	slices.SortFunc(sigEnums, func(a, b *SignalEnum) int {
+		if res := strings.Compare(a.name, b.name); res != 0 {
+			return res
+		}
+		return strings.Compare(string(a.entityID), string(b.entityID))
+	})
+
+	for _, sigEnum := range sigEnums {
 		e.exportSignalEnum(sigEnum)
 	}
 
@@ -334,7 +348,7 @@ func (e *exporter) exportMessage(msg *Message) {
 
 	dbcMsg.Name = clearSpaces(msg.name)
 	dbcMsg.Size = uint32(msg.sizeByte)
-	dbcMsg.Transmitter = msg.senderNodeInt.node.name
+	dbcMsg.Transmitter = clearSpaces(msg.senderNodeInt.node.name)
 
 	e.currDBCMsg = dbcMsg
 
@@ -486,7 +500,7 @@ func (e *exporter) getDBCValueDescription(enumValues []*SignalEnumValue) []*dbc.
 
 func (e *exporter) exportSignalEnum(enum *SignalEnum) {
 	e.dbcFile.ValueTables = append(e.dbcFile.ValueTables, &dbc.ValueTable{
-		Name:   enum.name,
+		Name:   clearSpaces(enum.name),
 		Values: e.getDBCValueDescription(enum.Values()),
 	})
 }
